@@ -242,6 +242,13 @@ Abnormal(ln) ==
   /\ (ln.ev # "stall" \/ PrintT("@STAT " \o ToJson([x |-> ln.x] @@ st)))
   /\ UNCHANGED <<AfdVars, CtxVars, next_id, pend, live, ids, st>>
 
+\* the driver's close() wrapper: the library closed a descriptor that was not open (the descriptor table is process-wide:
+\* in another schedule the number belongs to another thread's socket by then)
+Stray(ln) ==
+  /\ Report(ln, <<Chk(FALSE, "C15.stray_close", "the library closes only descriptors it owns",
+                      <<"close() of descriptor", ln.a, "which is not open; thread", ln.t>>)>>)
+  /\ UNCHANGED <<AfdVars, CtxVars, next_id, pend, live, ids, st>>
+
 Reset(ln) ==
   /\ pool' = <<>> /\ cnt' = <<>> /\ fdopen' = {}
   /\ entries' = <<>> /\ ehash' = <<>> /\ use' = <<>> /\ ctxlive' = {}
@@ -265,6 +272,8 @@ TraceNext ==
        [] ln.ev = "peak"      -> Peak(ln)
        [] ln.ev = "conn"      -> Conn(ln)
        [] ln.ev = "end"       -> End(ln)
+       [] ln.ev = "stray_close" -> Stray(ln)
+       [] ln.ev = "setup"     -> UNCHANGED <<AfdVars, CtxVars, next_id, pend, live, ids, st>>   \* the driver gave up setting up
        [] ln.ev = "reset"     -> Reset(ln)
        [] ln.ev \in {"crash", "race", "stall"} -> Abnormal(ln)
 
